@@ -93,9 +93,19 @@ def gen_descr(rng, aliases, checks, modes):
     return d
 
 
+# what a task of each mode cannot do without (TaskDescription's documentation of the modes)
+MODE_NEEDS = {'task.executable': 'executable', 'task.service': 'executable', 'agent.service': 'executable', 'task.proc': 'executable',
+              'task.function': 'function', 'task.method': 'function', 'task.eval': 'code', 'task.exec': 'code',
+              'task.shell': 'command'}
+
+
 def monitor_descr(rp, d, td, err, aliases):
     if err:
         return None
+    need = MODE_NEEDS.get(td['mode'])
+    if need and not td[need]:
+        return ('description-accepted-without-what-its-mode-needs:%s' % td['mode'],
+                'mode %s needs %r; verify() accepted %s' % (td['mode'], need, {k: v for k, v in d.items() if k in ('mode', 'executable', 'function', 'code', 'command')}))
     inp = rp.TaskDescription(from_dict=copy.deepcopy(d))
     for old, new, _, _, to_float in aliases:
         ov = inp[old]
